@@ -72,7 +72,8 @@ const bytesAxioms = `(assert (= (blen beps) 0))
 (assert (forall ((a B) (hi Int)) (! (=> (= hi (blen a)) (= (bsub a 0 hi) a)) :pattern ((bsub a 0 hi)))))
 (assert (forall ((a B) (b B) (n Int)) (! (=> (= n (blen a)) (= (bsub (bcat a b) 0 n) a)) :pattern ((bsub (bcat a b) 0 n)))))
 (assert (forall ((a B) (b B) (n Int) (m Int)) (! (=> (and (= n (blen a)) (= m (+ (blen a) (blen b)))) (= (bsub (bcat a b) n m) b)) :pattern ((bsub (bcat a b) n m)))))
-(assert (forall ((a B) (lo Int)) (! (=> (= lo (blen a)) (= (bsub a lo lo) beps)) :pattern ((bsub a lo lo)))))
+(assert (forall ((a B) (lo Int)) (! (=> (and (<= 0 lo) (<= lo (blen a))) (= (bsub a lo lo) beps)) :pattern ((bsub a lo lo)))))
+(assert (= (bzeros 1) (b1 0)))
 (assert (forall ((x Int)) (! (=> (and (<= 0 x) (< x 65536)) (= (ule16 (le16 x)) x)) :pattern ((le16 x)))))
 (assert (forall ((x Int)) (! (=> (and (<= 0 x) (< x 4294967296)) (= (ule32 (le32 x)) x)) :pattern ((le32 x)))))
 (assert (forall ((x Int)) (! (=> (and (<= 0 x) (< x 18446744073709551616)) (= (ule64 (le64 x)) x)) :pattern ((le64 x)))))
@@ -130,6 +131,7 @@ func (e *Enc) nameTerm(prefix, sort, t string) string {
 }
 
 func (e *Enc) setBytes(h *Heap, s, content string) {
+	content = e.nameTerm("bc", "B", content) // stores carry a name, not the text of a long content term
 	h.m["$bytes"] = app("store", e.bytesHeap(h), s, content)
 }
 
